@@ -286,6 +286,8 @@ func (env *ExecEnv) expandParam(fields []*field, pe *ast.ParamExp, mode ExpMode)
 			fields[len(fields)-1].join(pe.Name.Value, quote)
 		case set && !null:
 			goto Param
+		case !set && env.Opts&NoUnset != 0:
+			goto Unset
 		}
 	case pe.Word == nil:
 		// string length
